@@ -4,6 +4,8 @@ import RuxModel.Drv.Route
 import RuxModel.Drv.Gates
 import RuxModel.Drv.Chain
 import RuxModel.Drv.Bind
+import RuxModel.Drv.Writer
+import RuxModel.Drv.Render
 /-
   Line-protocol driver: `driver <engine>` reads op lines on stdin and answers one line per op.
   Lines starting with `#` are echoed (they separate cases and carry comments).
@@ -29,7 +31,9 @@ def engines : List (String × Engine) := [
   ("route", routeEngine),
   ("gates", gatesEngine),
   ("chain", chainEngine),
-  ("bind", bindEngine)
+  ("bind", bindEngine),
+  ("writer", writerEngine),
+  ("render", renderEngine)
 ]
 
 def main (args : List String) : IO UInt32 := do
